@@ -407,6 +407,27 @@ pub fn expected_row(cfg: &TableCfg, s: &LineSpec) -> Option<Vec<Cell>> {
     Some(row)
 }
 
+/// The row of a line on which no pattern matches / that is not a JSON object (not for split tables, where the
+/// line itself is field 1): every column is its DEFAULT or NULL - BOOLEAN and TIMESTAMP columns included.
+pub fn expected_row_unmatched(cfg: &TableCfg) -> Option<Vec<Cell>> {
+    if cfg.variant == Variant::Split {
+        return None;
+    }
+    let k_val = if cfg.kmod == KMod::Default { Cell::Text("zz".to_owned()) } else { Cell::Null };
+    let n_val = if cfg.nmod == NMod::Default { Cell::Int(7) } else { Cell::Null };
+    if cfg.kmod == KMod::NotNull || cfg.nmod == NMod::NotNull {
+        return None;
+    }
+    let row: Vec<Cell> = cfg.order.iter().map(|c| match *c { "k" => k_val.clone(), "n" => n_val.clone(), _ => Cell::Null }).collect();
+    if row.iter().all(|c| c.is_null()) {
+        return None;
+    }
+    Some(row)
+}
+
+/// Text that matches none of the generated patterns and is not a JSON object.
+pub const UNMATCHED_TEXT: [&str; 8] = ["", "   ", "plain text line", "{", "[1,2]", "null", "E", "zzz 42"];
+
 /// Lines that by the documented rule can never become a row of table `t` under `cfg`.
 /// (A declared DEFAULT counts as a value: with a DEFAULT column every line is a row unless a NOT NULL
 /// column stays NULL.)
